@@ -54,6 +54,21 @@ def run(ck):
     ok = len(stores) == 1 and u(stores[0].value) == 'sequence' and not rebinds and 'sequence' in param_names(init)
     ck.ob('PROV-sequence', mod.loc(init), ok, 'AnnotateResidues keeps the sequence it was given, unchanged ({} store(s) of self.sequence, {} rebinding(s) of the argument)'.format(
         len(stores), len(rebinds)), key='PROV-sequence|constructor-verbatim')
+    # ---- a sequence given for a selection that selects nothing is an error, not a silent no-op: the "no molecule" error is raised exactly when the sequence is
+    # non-empty and nothing was selected -- no earlier exit for an empty selection
+    raises_ = [(st_, c_) for st_, c_, _e in stmts_with_env(rs, lambda s_: isinstance(s_, ast.Raise)) if 'no molecule' in u(st_).lower()]
+    okr = len(raises_) == 1
+    if okr:
+        names_ = {}
+        for k_ in flow.atoms_of(raises_[0][1]):
+            if k_[0] == 'truth' and k_[1] == 'self.sequence':
+                names_[k_] = 'SEQ'
+            elif k_[0] == 'truth' and (k_[1] in ('molecule_lengths', 'selected_molecules') or 'molecule_selector(' in k_[1]):       # (the condition is read with locals substituted)
+                names_[k_] = 'SEL'
+        okr = len(names_) == len(flow.atoms_of(raises_[0][1])) and flow.equivalent(flow.rename(raises_[0][1], names_), flow.parse_formula('SEQ and not SEL'))[0]
+    early = [r_ for r_ in walk_local(rs) if isinstance(r_, ast.Return) and r_ is not rs.body[-1]]
+    ck.ob('DT-mismatch', mod.loc(rs), okr and not early, 'run_system raises "no molecule to which to apply the sequence" exactly when the sequence is non-empty and no molecule is '
+          'selected, and has no earlier exit ({} early return(s))'.format(len(early)), key='DT-mismatch|empty-selection')
     # ---- SIB-zip: package-wide sweep (cheap), anchored instance must exist
     total = 0
     anchored = 0
